@@ -5,7 +5,7 @@ CONSTANTS
   Prefixes <- PfxS
   Stores = {"s1"}
   MaxLayers = 3
-  MaxLen = 5
+  MaxLen = 7
   InitBases <- Bases3
   ReadAll = FALSE
   LogViews = FALSE
